@@ -997,6 +997,14 @@ func (g *FuncGen) stableClasses() map[string]bool {
 	c := g.c
 	for _, w := range strings.Fields(strings.ReplaceAll(g.contract.Options["stable"], ",", " ")) {
 		switch {
+		case strings.HasPrefix(w, "map["):
+			t, _ := g.specType(w, g.pkg)
+			m, ok := t.(*types.Map)
+			if !ok {
+				g.unsup("option stable %s: not a map type", w)
+			}
+			g.stableCache[c.mapDomClass(m)] = true
+			g.stableCache[c.mapValClass(m)] = true
 		case strings.HasPrefix(w, "[]"):
 			t, _ := g.specType(w[2:], g.pkg)
 			if t == nil {
